@@ -50,9 +50,9 @@ P("C13", "workers", "Lean 4 proof over worker automata instantiated from extract
 P("C14", "tracker", "Lean 4 rendering law + differential correspondence incl. the real parser/coalescer",
   "Theorem C14.render: toAuditEvent yields type UserAction, component auditd, the audit timestamp, auditId = session, outcome succeeded iff result = success, action/how/object and process_args iff present, and the login's identity content; C14.login_unchanged: no step alters a stored login. Correspondence at the tracker API over all results/argument counts and through the real auparse/reassembler/coalescer.",
   "aucoalesce is abstract in the model (the harness feeds the model the fields of the real coalesced event).", "5 C14")
-P("C15", "auditproc", "Lean 4 proofs over the audit-processor and reassembler models + fault injection through the real Auditd.Read",
-  "Theorems C15.*: every non-empty line is pushed or named in the error; every pushed record is in exactly one delivered group or in flight; records of one event are grouped even when interleaved; the first error is never dropped. Correspondence through the real Read with malformed lines at every position, interleavings of up to three events, write failure at the k-th event, invalid logins.",
-  "go-libaudit parser/coalescer abstract; reassembler modelled from its source.", "5 C15")
+P("C15", "auditproc", "Lean 4 invariant proofs over the audit-processor model (parser, go-libaudit reassembler, callback, one-slot error channel, Read loop) + differential correspondence through the real Auditd.Read",
+  "Theorems C15.pushed_characterised / parse_error_names_first_rejected / rejected_line_then_poll_stops (every accepted line before the first rejected one is pushed, in order; the error carries exactly that line; Read cannot get past it), conservation / every_record_in_one_group / flushed_at_return (per sequence number: delivered ++ in flight = pushed, in order, at every point of every run), groups_are_whole_events / one_group_per_event (for ANY interleaving of the events' records: each group handed over is exactly one kernel event, none split, provided no record arrives after its event's completing record and nothing was force-evicted), first_error_kept / pending_error_stops / ctx_means_no_error_pending / invalid_login_stops (the one-slot channel keeps the first correlator error, a pending error stops Read). Correspondence: the real Auditd.Read (parser, real go-libaudit reassembler and coalescer, callback, real tracker) on generated streams with a malformed line / invalid login at every position, a write failure at every k, records of up to 3 events interleaved, stray late records, unparsable PIDs; Spec.C15 judged on the implementation's observation.",
+  "assurance = min(proof about the hand-written model AM.Model.AuditProc, correspondence sampling). auparse/aucoalesce are abstract in the model (a line comes with what the parser makes of it; coalesce reduced to the fields the tracker reads); the reassembler is modelled from go-libaudit's source without sequence roll-over; the three Go routines of Read are sequenced by the harness (unbuffered channels, sentinel empty lines, Read observed parked in its select) and the model is the sequential run; expiry (2 s) only in the thorough tier.", "5 C15")
 P("C16", "tracker", "Lean 4 exact characterisation of cleanup + integer window arithmetic on extracted constants + differential correspondence",
   "Theorems C16.sessions_exact / logins_exact: cleanup removes exactly the uncorrelated entries older than the cut-off and nothing else; C16.window: with the extracted ticker period and cut-off (60 s, regenerated from source) halves within one period are always correlated and halves more than two periods apart never. Correspondence with cut-offs captured between any two arrivals; Spec.C02's staleness clause judged on implementation observations.",
   "time.Ticker not dropping ticks and the time stamps compared are runtime assumptions; the real-time run is thorough tier only.", "5 C16")
@@ -72,6 +72,11 @@ P("C20", "dirreader", "Lean 4 refinement proof over all operation sequences + di
 ENGINES = [
     {"name": "sshd", "path": "lean/AM/Model/Sshd.lean", "serves_properties": ["C05", "C06", "C07", "C11", "C17", "C19"], "kind_free_text": "Lean model of processors/sshd + ingesters/syslog over regenerated expressions; Go harness mode sshd/syslog"},
     {"name": "tracker", "path": "lean/AM/Model/Tracker.lean", "serves_properties": ["C01", "C02", "C04", "C09", "C14", "C16"], "kind_free_text": "Lean model of the session tracker; Go harness mode tracker"},
+    {"name": "conc", "path": "lean/AM/Model/Conc.lean", "serves_properties": ["C03", "C18"], "kind_free_text": "Lean model of threads of lock/unlock/act steps under any schedule; Go harness mode conc (controlled scheduler on the verif hooks)"},
+    {"name": "health", "path": "lean/AM/Model/Health.lean", "serves_properties": ["C18"], "kind_free_text": "Lean model of internal/health; Go harness mode health (httptest)"},
+    {"name": "pipe", "path": "lean/AM/Model/Pipe.lean", "serves_properties": ["C12"], "kind_free_text": "Lean model of NamedPipeIngester.Ingest over bufio.ReadString; Go harness mode pipe (real FIFO)"},
+    {"name": "dirreader", "path": "lean/AM/Model/DirReader.lean", "serves_properties": ["C20"], "kind_free_text": "Lean model of the audit log directory reader; Go harness mode dir (in-memory fileSystem/fsWatcher shim)"},
+    {"name": "auditproc", "path": "lean/AM/Model/AuditProc.lean", "serves_properties": ["C15"], "kind_free_text": "Lean model of Auditd.Read (parser, reassembler, callback, error channels) around the tracker model; Go harness mode auditproc"},
 ]
 
 
